@@ -96,7 +96,7 @@ def modelOutcome (p : Point) : Nat :=
 
 /-! ### host_is_trusted -/
 
-/-- `ref` (a trusted-list entry) admits the encoded host name `hn` -/
+/-- `ref` (a trusted-list entry) accepts the encoded host name `hn` -/
 def RefMatches (idna : Idna) (hn : List Char) (ref : List Char) : Prop :=
   ∃ rn, idna (beforeColon (refParts ref).2) = .ok rn ∧
     (rn = hn ∨ ((refParts ref).1 = true ∧ ('.' :: rn) <:+ hn))
